@@ -283,6 +283,15 @@ def monitor_pair(op, out):
             "%s: completed %s pairing (%s, central TK %s, user %s) reported %s" % (where, sel[0], alg, TK[tk], USER[user], STATUS[status]))
 
 
+def proj_c35(op, line):
+    """C35 is about completion and status: the three Pairing Response bytes (C36's subject) are
+    not compared, so a mutation of the advertised capabilities does not fail this property"""
+    w = line.split()
+    if w and w[0] in ("legacy", "lesc") and len(w) > 5:
+        return " ".join(w[:2] + w[5:])
+    return line
+
+
 def c35_ops(ctx):
     """complete pairings: legacy half x 4 central TKs, LESC half x 7 user behaviours"""
     full, sample = [], []
@@ -326,7 +335,7 @@ def run_c35(ctx, replay_path=None):
     ops = full + sample
     ctx.rng.shuffle(ops)
     sessions = corpus + chunks(ops, 128)
-    impl, model, dis = ctx.run_pair(sessions)
+    impl, model, dis = ctx.run_pair(sessions, proj_c35)
     for d in dis[:20]:
         res.disagreements.append(dict(d, ops=[d["op"]]))
     seen = {}
